@@ -106,7 +106,10 @@ def eq_hash_ord(ctx, prog, tyname):
                 continue
             if a[0] == "Eq":
                 have.add(frozenset((canon(strip(a[1])), canon(strip(a[2])))))
-            elif a[0] == "truth" and a[2] is True and strip(a[1])[0] == "call" and len(strip(a[1])[2]) == 2:
+            elif a[0] == "truth" and a[2] is True and strip(a[1])[0] == "call" and len(strip(a[1])[2]) == 2 and not strip(a[1])[1].endswith("::ne"):
+                have.add(frozenset((canon(strip(strip(a[1])[2][0])), canon(strip(strip(a[1])[2][1])))))
+            elif a[0] == "truth" and a[2] is False and strip(a[1])[0] == "call" and len(strip(a[1])[2]) == 2 and strip(a[1])[1].endswith("::ne"):
+                # `if a != b { return false }`: the ladder form of the same conjunction
                 have.add(frozenset((canon(strip(strip(a[1])[2][0])), canon(strip(strip(a[1])[2][1])))))
         miss = [sorted(k) for k in keyset if k not in have]
         if miss:
